@@ -3,6 +3,8 @@ the Textgrid-level operations are exercised by C12's check with the same oracle)
 from framework import Failure
 import tiers as T
 import tierops
+import tgops
+import dispatch
 
 RULE = ("random interval and point tiers (0..6 entries, dyadic grid k/64 and 1-3 digit decimals, including empty tiers) x "
         "offsets chosen to clip none / some / all entries, zero, and +-tiny x 3 reporting modes; appendTier over random "
@@ -15,9 +17,9 @@ REPORTS = ["silence", "warning", "error"]
 
 case_json = lambda c: c
 case_from_json = lambda j: j
-encode = tierops.encode
-impl = tierops.impl
-render = tierops.render
+encode = dispatch.encode
+impl = dispatch.impl
+render = dispatch.render
 
 
 def wants_x(c):
@@ -47,6 +49,8 @@ def shifted(t, o):
 
 
 def oracle(c, r):
+    if dispatch.is_tg(c):
+        return tgops.oracle(c, r)
     op, t = c["op"], c["tier"]
     sig = {"op": op}
     if op in ("ishift", "pshift"):
@@ -87,6 +91,8 @@ def oracle(c, r):
 
 
 def tags(c, r):
+    if dispatch.is_tg(c):
+        return [c['op'], 'grid' if c.get('grid') else 'dec'] + (['err:' + r[1]] if r[0] == 'err' else [])
     out = [c["op"], "grid" if c.get("grid") else "dec"]
     if "report" in c:
         out.append("report:" + c["report"])
@@ -101,6 +107,8 @@ def tags(c, r):
 
 
 def nontrivial(c, r):
+    if dispatch.is_tg(c):
+        return any(t['es'] for t in c['tg']['tiers'])
     if c["op"] in ("ishift", "pshift"):
         return len(c["tier"]["es"]) > 0 and c["o"] != 0
     return len(c["other"]["es"]) > 0
@@ -120,6 +128,27 @@ def corpus():
 
 
 def gen(rnd, tier):
+    yield from gen_tier_level(rnd, tier)
+    for i in range(30000 if tier == 'thorough' else 2500):
+        domain = rnd.choice(['dec', 'dec', 'grid64'])
+        c = tg_case(rnd, domain)
+        c['grid'] = domain != 'dec'
+        yield c
+
+
+def tg_case(rnd, domain):
+    g = tgops.gen_tg(rnd, domain, valid=rnd.random() < 0.8)
+    if rnd.random() < 0.5:
+        o = rnd.choice([0.0, 1.0, -1.0, -3.5, -20.0, 0.5]) if domain != 'dec' else round(rnd.uniform(-6, 6), 2)
+        return {'op': 'tg_shift', 'tg': g, 'o': float(o), 'report': rnd.choice(REPORTS)}
+    h = tgops.gen_tg(rnd, domain, valid=rnd.random() < 0.8)
+    # shared names must have the same tier class
+    kinds = {t['name']: t['k'] for t in g['tiers']}
+    h = dict(h, tiers=[t for t in h['tiers'] if kinds.get(t['name'], t['k']) == t['k']])
+    return {'op': 'tg_append', 'tg': g, 'other': h, 'matching': rnd.random() < 0.5}
+
+
+def gen_tier_level(rnd, tier):
     n = 60000 if tier == "thorough" else 9000
     for i in range(n):
         domain = rnd.choice(["dec", "dec", "grid64"])
@@ -141,12 +170,7 @@ def gen(rnd, tier):
             yield {"op": k + "append", "tier": t, "other": u, "grid": domain != "dec"}
 
 
-def shrink(c):
-    for s in T.shrink_spec(c["tier"]):
-        yield dict(c, tier=s)
-    if "other" in c:
-        for s in T.shrink_spec(c["other"]):
-            yield dict(c, other=s)
+shrink = dispatch.shrink
 
 
 def perturb(c, rnd):
